@@ -179,8 +179,8 @@ def build_class(spec, extra_attrs=None):
     return cls
 
 
-def instantiate(spec, router, extra_attrs=None):
-    cls = build_class(spec, extra_attrs)
+def instantiate(spec, router, extra_attrs=None, cls=None):
+    cls = cls or build_class(spec, extra_attrs)
     if spec["name_via"] == "class":
         return cls(router=router)
     return cls(name=spec["name"], router=router)
@@ -200,3 +200,14 @@ def serialized_len_estimate(v):
     for e in v["elements"].values():
         n += 110 + len(e["name"]) * 2 + len(e.get("label") or "") * 6 + len(str(e.get("default") or "")) * 6
     return n
+
+
+def clone_as_second_instance(spec, new_name):
+    """A second device that is another *instance of the same Driver class* (two cameras of one model):
+    both get their names through the constructor, the class itself carries no name attribute."""
+    import copy
+    spec["name_via"] = "ctor"
+    twin = copy.deepcopy(spec)
+    twin["name"] = new_name
+    twin["class_of"] = spec["name"]
+    return twin
